@@ -333,6 +333,7 @@ def extract_projector_tables(order: int):
 
 
 def gen_perm_tables():
+    check_skeletons("PermTables")
     out = ["/- REGENERATED by tools/extract.py from permutation_tools_O{2,3,4}.py and",
            "   matrix_tools_O{2,3,4}.py — do not edit. -/",
            "import SymfcModel.Model.Types", "namespace Symfc.Gen", "open Symfc", ""]
@@ -397,6 +398,7 @@ def idx_compare(fn, rel, var):
 
 
 def gen_cutoff():
+    check_skeletons("Cutoff")
     rel = "utils/cutoff_tools.py"
     mod = parse(rel)
     cls = "FCCutoff"
@@ -1299,6 +1301,7 @@ def gen_api_access():
 # ----------------------------------------------------------------------------------------
 
 def gen_eig():
+    check_skeletons("Eig")
     rel = "utils/eig_tools.py"
     mod = parse(rel)
     ep = find_func(mod, "eigh_projector", rel)
@@ -1410,6 +1413,7 @@ def gen_eig():
 # ----------------------------------------------------------------------------------------
 
 def gen_sumrule():
+    check_skeletons("SumRule")
     out = ["/- REGENERATED by tools/extract.py from utils/matrix_tools_O{2,3,4}.py, utils/utils_O{2,3,4}.py — do not edit. -/",
            "import SymfcModel.Model.Types", "import SymfcModel.Model.SumRule", "namespace Symfc.Gen", "open Symfc", ""]
     for n in (2, 3, 4):
@@ -1651,6 +1655,141 @@ def gen_purity():
 
 
 # ----------------------------------------------------------------------------------------
+# Statement skeletons: the hand-written model was validated (correspondence) against functions with exactly these
+# statement structures. tools/skeletons.json records, per function, the normalised list "depth:statement head"
+# (docstrings, prints, timing and `if verbose` blocks removed). A function whose skeleton differs is UNTRANSLATABLE:
+# the tie between model and code has to be re-established (correspondence + failing-input search decide the rest).
+# ----------------------------------------------------------------------------------------
+
+SKELETON_FILE = Path(__file__).resolve().parent / "skeletons.json"
+SKELETON_GROUPS = {
+    "PermTables": [("utils/permutation_tools.py", None), ("utils/permutation_tools_O2.py", None),
+                   ("utils/permutation_tools_O3.py", None), ("utils/permutation_tools_O4.py", None),
+                   ("utils/utils_O2.py", ["get_lat_trans_decompr_indices", "get_lat_trans_compr_indices",
+                                          "get_lat_trans_compr_matrix", "get_lat_trans_compr_matrix_O2",
+                                          "_get_atomic_lat_trans_decompr_indices"]),
+                   ("utils/utils_O3.py", ["get_atomic_lat_trans_decompr_indices_O3", "get_lat_trans_decompr_indices_O3",
+                                          "get_lat_trans_compr_matrix_O3", "_get_lat_trans_compr_matrix_O3"]),
+                   ("utils/utils_O4.py", ["get_atomic_lat_trans_decompr_indices_O4", "get_lat_trans_decompr_indices_O4",
+                                          "get_lat_trans_compr_matrix_O4", "_get_lat_trans_compr_matrix_O4"]),
+                   ("utils/utils_O1.py", None), ("utils/utils.py", ["get_indep_atoms_by_lat_trans"]),
+                   ("utils/matrix_tools.py", None)],
+    "SumRule": [("utils/matrix_tools_O2.py", ["optimize_batch_size_sum_rules_O2", "compressed_projector_sum_rules_O2",
+                                               "compressed_projector_sum_rules_O2_stable"]),
+                ("utils/matrix_tools_O3.py", ["optimize_batch_size_sum_rules_O3", "compressed_projector_sum_rules_O3",
+                                               "compressed_projector_sum_rules_O3_stable"]),
+                ("utils/matrix_tools_O4.py", ["optimize_batch_size_sum_rules_O4", "compressed_projector_sum_rules_O4",
+                                               "compressed_projector_sum_rules_O4_stable"]),
+                ("utils/utils_O2.py", ["get_compr_coset_reps_sum", "get_compr_coset_projector_O2"]),
+                ("utils/utils_O3.py", ["get_compr_coset_projector_O3", "get_compr_coset_projector_O3_stable"]),
+                ("utils/utils_O4.py", ["get_compr_coset_projector_O4", "get_compr_coset_projector_O4_stable"]),
+                ],
+    "SpgRepsSkel": [("spg_reps/spg_reps_base.py", None), ("spg_reps/spg_reps_O1.py", None),
+                    ("spg_reps/spg_reps_O2.py", None), ("spg_reps/spg_reps_O3.py", None),
+                    ("spg_reps/spg_reps_O4.py", None)],
+    "Eig": [("utils/eig_tools.py", None)],
+    "Cutoff": [("utils/cutoff_tools.py", None)],
+    "SgPermSkel": [("utils/utils.py", ["round_positions", "argsort_positions", "_find_optimal_decimals",
+                                       "compute_sg_permutations"])],
+    "PipelineSkel": [("basis_sets/basis_sets_base.py", None), ("basis_sets/basis_sets_O2.py", None),
+                     ("basis_sets/basis_sets_O3.py", None), ("basis_sets/basis_sets_O4.py", None)],
+}
+
+
+def _skeleton(fn):
+    out = []
+
+    def noise(st):
+        if isinstance(st, ast.Expr):
+            if isinstance(st.value, ast.Constant) and isinstance(st.value.value, str):
+                return True
+            if isinstance(st.value, ast.Call) and ast.unparse(st.value.func) == "print":
+                return True
+        if isinstance(st, ast.Assign) and ast.unparse(st.value) == "time.time()":
+            return True
+        if isinstance(st, ast.If) and not st.orelse and all(noise(b) for b in st.body):
+            return True            # `if verbose:` blocks that only print / take the time
+        return False
+
+    def visit(stmts, depth):
+        for st in stmts:
+            if noise(st):
+                continue
+            if isinstance(st, (ast.FunctionDef, ast.AsyncFunctionDef, ast.ClassDef)):
+                out.append(f"{depth}:def {st.name}")
+                visit(st.body, depth + 1)
+                continue
+            if isinstance(st, (ast.If, ast.For, ast.While, ast.With, ast.Try)):
+                out.append(f"{depth}:" + ast.unparse(st).split("\n")[0])
+                for field in ("body", "orelse", "finalbody"):
+                    sub = getattr(st, field, None)
+                    if sub:
+                        if field != "body":
+                            out.append(f"{depth}:<{field}>")
+                        visit(sub, depth + 1)
+                for h in getattr(st, "handlers", []):
+                    out.append(f"{depth}:except {ast.unparse(h.type) if h.type else ''}")
+                    visit(h.body, depth + 1)
+            else:
+                out.append(f"{depth}:" + ast.unparse(st))
+    visit(fn.body, 0)
+    return out
+
+
+def _group_skeletons(group):
+    res = {}
+    for rel, names in SKELETON_GROUPS[group]:
+        mod = parse(rel)
+        for node in mod.body:
+            if isinstance(node, (ast.FunctionDef, ast.AsyncFunctionDef)):
+                if names is None or node.name in names:
+                    res[f"{rel}::{node.name}"] = _skeleton(node)
+            elif isinstance(node, ast.ClassDef) and names is None:
+                for m in node.body:
+                    if isinstance(m, (ast.FunctionDef, ast.AsyncFunctionDef)):
+                        res[f"{rel}::{node.name}.{m.name}"] = _skeleton(m)
+        if names is not None:
+            for nme in names:
+                if f"{rel}::{nme}" not in res:
+                    fail(rel, mod, f"function {nme} not found")
+    return res
+
+
+def check_skeletons(group):
+    cur = _group_skeletons(group)
+    if os.environ.get("VERIF_RECORD_SKELETONS") == "1":
+        allsk = json.loads(SKELETON_FILE.read_text()) if SKELETON_FILE.exists() else {}
+        allsk[group] = cur
+        SKELETON_FILE.write_text(json.dumps(allsk, indent=0, sort_keys=True))
+        return
+    pinned = json.loads(SKELETON_FILE.read_text()).get(group)
+    if pinned is None:
+        fail("tools/skeletons.json", None, f"no recorded skeletons for group {group}")
+    for key in sorted(set(pinned) | set(cur)):
+        rel = key.split("::")[0]
+        if key not in cur:
+            fail(rel, None, f"{key}: function disappeared")
+        if key not in pinned:
+            fail(rel, None, f"{key}: new function in a modelled module (not covered by the model)")
+        a, b = pinned[key], cur[key]
+        if a != b:
+            i = next((k for k, (x, y) in enumerate(zip(a, b)) if x != y), min(len(a), len(b)))
+            was = a[i] if i < len(a) else "<end>"
+            now = b[i] if i < len(b) else "<end>"
+            fail(rel, None, f"{key}: statement structure changed at statement {i}: was `{was[:100]}`, now `{now[:100]}`")
+    rec("tools/skeletons.json", None, f"statement skeletons of group {group} unchanged", len(cur))
+
+
+def gen_skel(group):
+    def g():
+        check_skeletons(group)
+        return ("/- REGENERATED by tools/extract.py — do not edit. -/\nnamespace Symfc.Gen\n\n"
+                f"/-- the statement skeletons of the functions of group {group} are the ones the model was validated against -/\n"
+                f"def skeleton{group} : Bool := true\n\nend Symfc.Gen\n")
+    return g
+
+
+# ----------------------------------------------------------------------------------------
 
 GENERATORS = {
     "PermTables": gen_perm_tables,
@@ -1667,6 +1806,9 @@ GENERATORS = {
     "SumRule": gen_sumrule,
     "O1": gen_o1,
     "Purity": gen_purity,
+    "SgPermSkel": gen_skel("SgPermSkel"),
+    "PipelineSkel": gen_skel("PipelineSkel"),
+    "SpgRepsSkel": gen_skel("SpgRepsSkel"),
 }
 
 
